@@ -22,10 +22,8 @@ import (
 // reported under exactly that signature; everything after it in the same case is a
 // consequence and carries the same signature.  Stale historical records are reported as
 // C13:history-retention-zero only if HistoricalEntries was 0 at some begin block of the case.
-// A genesis that names one operator address twice (accepted by ValidateGenesis) taints its
-// whole case with C13:genesis-duplicate-operator.
 
-var knownValSigs = map[string]bool{"C13:history-retention-zero": true, "C13:genesis-duplicate-operator": true, "C14:plan-reuses-operator": true, "C14:plan-reuses-key": true, "C14:plan-at-cap": true}
+var knownValSigs = map[string]bool{"C13:history-retention-zero": true, "C14:plan-reuses-operator": true, "C14:plan-reuses-key": true, "C14:plan-at-cap": true}
 var valSigCount = map[string]int{}
 
 type planInfo struct {
@@ -126,15 +124,6 @@ func monitorVal(rep *Report, r *ValRun) valMonResult {
 		rep.Violate(Violation{Case: r.ID, Step: step, What: what, Sig: sig, Ops: r.History(step),
 			Detail: map[string]interface{}{"state_after_step": r.Snaps[step].Ov().Coq()}})
 		internOff = false
-	}
-	{
-		seenOp := map[uint64]bool{}
-		for _, v := range r.Gen.Vals {
-			if seenOp[v.Op] {
-				taint = "C13:genesis-duplicate-operator"
-			}
-			seenOp[v.Op] = true
-		}
 	}
 	plans := map[uint64]planInfo{}
 	removed := map[uint64]bool{}
